@@ -68,7 +68,9 @@ def qscen_bind(v):
     return bool(BIND_RE.search(v)) or "\\" in v
 
 
-def oracle(report, scen, rec):
+def oracle(report, scen, rec, payload=None, context=""):
+    """payload / context: the replay payload and a description of the circumstances, when the answer in `rec` was not obtained
+    by asking rec["filters"] on the bench (default: it was)"""
     if rec is None or not rec.get("planned") or rec["ids"] is None:
         if rec is not None and rec.get("wellformed") and rec["spec_strict"] and rec["ids"] is None:
             # a well-formed filter with matches that gets no plan / no statement at all
@@ -91,9 +93,9 @@ def oracle(report, scen, rec):
         missing = rec["spec_strict"] - set(ids)
         if missing:
             report.property_failure(
-                "kv(%s): %d of %d strictly matching stored events not delivered for %r"
-                % (rec.get("index"), len(missing), len(rec["spec_strict"]), rec["filters"][0]),
-                qscen.replay_payload(rec), classify_kv(rec))
+                "kv(%s): %d of %d strictly matching stored events not delivered for %r%s"
+                % (rec.get("index"), len(missing), len(rec["spec_strict"]), rec["filters"][0], context),
+                payload or qscen.replay_payload(rec), classify_kv(rec))
     else:
         by_id = scen.by_id
         for qi in rec["cleaned"]:
@@ -221,6 +223,10 @@ def kv_multi(report, scen, fs):
 
 
 def replay_one(report, scen, r):
+    if r.get("storage_req"):
+        scen.load(r["events"])
+        storage_reqs(report, scen, r["options"], [r["filters"]], entries=(r["entry"],))
+        return
     if r.get("multi"):
         scen.load(r["events"])
         kv_multi(report, scen, r["filters"])
@@ -499,6 +505,271 @@ def wide_random(report, scen, rng, adversarial=False):
         report.count("wide_chained_random_filters")
 
 
+# ---------------------------------------------------------------------------------------------------------------------------
+# REQs through the storage object, under the storage configurations an operator may choose.  The property quantifies over the
+# relay as it is deployed: the `storage:` section of the configuration is handed to LMDBStorage as it stands, and its
+# documented options (pool_size: how many reader threads serve the plans of the REQs; map_size, metasync, sync, max_spare_txns
+# are passed on to the environment) decide HOW a REQ is executed — the plans of a multi-filter REQ are submitted to the
+# storage's own pool and collected again by storage.subscribe -> Subscription.run_query (what a websocket REQ runs) and by
+# storage.run_single_query (what the HTTP / internal callers run).  The bench above calls planner / execute_one_plan /
+# executor itself, with its own pool: everything between the storage object's options and the executor is invisible to it.
+# The family below builds the real LMDBStorage from option sets, loads the scenario's store through its writer, and sends
+# REQs of 1 ... 7 valid filters (the planner serves the first five; the others must not disturb them) through both entry
+# points.  Pool widths are chosen on general grounds: a REQ has between one and five plans, so the widths cover "narrower
+# than the REQ" (1 ... 4), "as wide" (5), the default (option absent) and "much wider" (16).  Filters come in two sorts:
+# selectors that PARTITION the store (one kind / one author / one id / one tag value / one timestamp each, so that an event
+# is owed by exactly one filter of the REQ and nothing a neighbour delivers can stand in for it) and the random conjunctions
+# of gen.gen_filter.  What is observable at these entry points is the REQ's stream up to EOSE, so every planned filter is
+# judged by the completeness oracle above against that stream (each strictly matching stored event of a filter that is under
+# its limit must be in it; known classes as for a filter asked alone), and an event must not arrive more often than there are
+# filters of the REQ that match it.
+POOL_WIDTHS = (1, 2, 3, 4, 5, None, 16)                       # None: the option is absent (the default width)
+ENV_OPTIONS = ({}, {}, {}, {"metasync": False}, {"sync": False}, {"map_size": 16 << 20}, {"max_spare_txns": 1}, {"metasync": False, "map_size": 200 << 20})
+REQ_SIZES = (1, 2, 3, 3, 4, 4, 5, 5, 6, 7)
+EOSE_TIMEOUT = 60.0                                           # seconds; a REQ here takes milliseconds
+
+
+class ConfiguredLMDB:
+    """the real LMDBStorage built from a `storage:` option set.  As in lib/hist.py the writer thread is not started: its
+    real run() loop is executed in the calling thread over everything queued; the reader pool is the storage's own"""
+
+    def __init__(self, options):
+        import asyncio
+
+        common.setup_paths()
+        from nostr_relay.storage import kv
+
+        self.kv = kv
+        self.dir = common.scratch_dir("nrkvc-")
+        self.loop = asyncio.new_event_loop()
+        self.storage = None
+        kv.analyze = lambda *a, **k: None
+        opts = {"class": "nostr_relay.storage.kv.LMDBStorage", "path": self.dir, "validators": [], "map_size": 64 << 20}
+        opts.update(options)
+        orig_start = kv.WriterThread.start
+        kv.WriterThread.start = lambda self_: None          # never start the thread
+        try:
+            storage = kv.LMDBStorage(opts)
+            self.loop.run_until_complete(storage.setup())
+            self.storage = storage
+        finally:
+            kv.WriterThread.start = orig_start
+
+    def load(self, events):
+        w = self.storage.writer_thread
+        for e in events:
+            try:
+                ev = self.kv.Event(**e)
+            except Exception:
+                continue
+            w.queue.put(("add", [ev]))
+        w.queue.put(None)
+        w.running = True
+        w.run()
+
+    def ids(self):
+        with self.storage.db.begin() as txn:
+            keys = [bytes(k) for k in txn.cursor().iternext(values=False)]
+        return {k[1:].hex() for k in keys if k[:1] == b"\x00" and len(k) == 33}
+
+    def subscribe(self, filters):
+        """one REQ as a websocket connection issues it: (ids delivered before EOSE in order, whether EOSE came)"""
+        import asyncio
+        import copy
+        from nostr_relay.util import ClientID
+
+        async def go():
+            queue = asyncio.Queue()
+            client = ClientID("127.0.0.1")          # (kept alive by this frame: storage.clients holds it weakly)
+            await self.storage.subscribe(client, "req", copy.deepcopy(filters), queue)
+            got, eose = [], False
+            try:
+                while True:
+                    sub_id, event = await asyncio.wait_for(queue.get(), EOSE_TIMEOUT)
+                    if event is None:
+                        eose = True
+                        break
+                    got.append(event.id)
+            except asyncio.TimeoutError:
+                pass
+            await self.storage.unsubscribe(client, "req")
+            await self.storage.unsubscribe(client)
+            return got, eose
+        return self.loop.run_until_complete(go())
+
+    def single_query(self, filters):
+        import asyncio
+        import copy
+
+        async def go():
+            out = []
+
+            async def collect():
+                async for ev in self.storage.run_single_query(copy.deepcopy(filters)):
+                    out.append(ev.id)
+            try:
+                await asyncio.wait_for(collect(), EOSE_TIMEOUT)
+                return out, True
+            except asyncio.TimeoutError:
+                return out, False
+        return self.loop.run_until_complete(go())
+
+    def close(self):
+        st = self.storage
+        try:
+            if st is not None:
+                pool = st.query_pool
+                threads = list(getattr(pool, "_threads", ()))
+                pool.shutdown(wait=False, cancel_futures=True)
+                for t in threads:
+                    t.join(5.0)
+                if not any(t.is_alive() for t in threads) and st.db is not None:
+                    st.db.close()                       # (never under a reader that is still running)
+                self.loop.run_until_complete(st.stat_collector.stop())
+        except Exception:
+            pass
+        try:
+            self.loop.close()
+        except Exception:
+            pass
+        import shutil
+        shutil.rmtree(self.dir, ignore_errors=True)
+
+
+def partition_selectors(rng, evs):
+    """filters that each select the stored events sharing ONE value of one field; the selectors of one field are disjoint
+    (but for the timestamp windows, which reach one second to either side)"""
+    out = []
+    for k in sorted({e["kind"] for e in evs}):
+        out.append({"kinds": [k]})
+    for a in sorted({e["pubkey"] for e in evs}):
+        out.append({"authors": [a]})
+    for e in rng.sample(evs, min(len(evs), 4)):
+        out.append({"ids": [e["id"]]})
+    vals = sorted({(t[0], t[1]) for e in evs for t in e["tags"]
+                   if len(t) >= 2 and isinstance(t[0], str) and len(t[0]) == 1 and isinstance(t[1], str) and t[1] and "\x00" not in t[1]})
+    for n, v in rng.sample(vals, min(len(vals), 5)):
+        out.append({"#" + n: [v]})
+    for t in rng.sample(sorted({e["created_at"] for e in evs}), min(3, len({e["created_at"] for e in evs}))):
+        if 1 < t < 2 ** 31 - 2:
+            out.append({"since": t - 1, "until": t + 1})      # (an event AT a bound is not owed: the window is one wider)
+    return out
+
+
+def gen_storage_req(rng, scen, evs, n):
+    """n filters that pass the filter validation (so that 'a REQ of n filters' is what reaches the storage)"""
+    sel = partition_selectors(rng, evs) if evs else []
+    style = rng.random()
+    if sel and style < 0.45:
+        # one field for the whole REQ where it has enough values: every stored event is owed by at most one filter
+        by_field = {}
+        for f in sel:
+            by_field.setdefault(sorted(f)[0], []).append(f)
+        rich = [v for v in by_field.values() if len(v) >= min(n, 3)] or list(by_field.values())
+        pool = list(rng.choice(rich))
+        rng.shuffle(pool)
+        fs = pool[:n]
+        while len(fs) < n:
+            fs.append(dict(rng.choice(sel)))
+    elif sel and style < 0.75:
+        fs = [dict(rng.choice(sel)) for _ in range(n)]
+    else:
+        fs = [dict(rng.choice(sel)) if sel and rng.random() < 0.35 else gen.gen_filter(rng, evs, limit_pool=(None, None, None, None, 5, 100, 3))
+              for _ in range(n)]
+    out = []
+    for f in fs:
+        f = {k: (list(v) if isinstance(v, list) else v) for k, v in f.items()}
+        if "limit" not in f and rng.random() < 0.15:
+            f["limit"] = rng.choice([100, 500, 20, 5])
+        tries = 0
+        while scen.kv.validate(f) is None and tries < 20:
+            f = gen.gen_filter(rng, evs, limit_pool=(None, None, 100))
+            tries += 1
+        if scen.kv.validate(f) is not None:
+            out.append(f)
+    return out
+
+
+def describe_options(options):
+    return ", ".join("%s=%r" % kv for kv in sorted(options.items())) or "defaults"
+
+
+def storage_reqs(report, scen, options, reqs, entries=("subscribe", "run_single_query")):
+    """the store loaded in `scen`, in a real LMDBStorage built from `options`; every REQ of `reqs` through the entry points"""
+    what = "LMDBStorage(%s)" % describe_options(options)
+    try:
+        st = ConfiguredLMDB(options)
+    except Exception as e:
+        report.property_failure("%s cannot be set up (%r): no REQ is answered" % (what, e),
+                                {"backend": "kv", "storage_req": True, "options": options, "entry": entries[0], "filters": [], "events": scen.events}, None)
+        return
+    try:
+        st.load(scen.events)
+        stored = st.ids()
+        if stored != scen.kv_stored:
+            report.count("storage_req_store_differs_from_bench")
+        width = options.get("pool_size", "default")
+        for fs in reqs:
+            # what each filter owes, from the bench: the reference answers (Lean matchesSpec, cross-checked with the Python
+            # reference), the limit and the index of the plan the filter gets when asked alone
+            judged = []
+            for f in fs[:5]:
+                rec = scen.ask_kv({k: (list(v) if isinstance(v, list) else v) for k, v in f.items()})
+                if rec is not None and rec.get("planned") and rec["ids"] is not None:
+                    judged.append(rec)
+            for entry in entries:
+                payload = {"backend": "kv", "storage_req": True, "options": options, "entry": entry, "filters": fs, "events": scen.events}
+                try:
+                    got, eose = st.subscribe(fs) if entry == "subscribe" else st.single_query(fs)
+                except Exception as e:
+                    report.property_failure("%s: storage.%s raised %r on the REQ %r of valid filters" % (what, entry, e, fs), payload, None)
+                    continue
+                if not eose:
+                    report.count("storage_req_without_eose")   # (whether EOSE comes is another property's business: judge what came)
+                delivered = set(got)
+                owed = 0
+                for i, rec in enumerate(judged):
+                    r = dict(rec)
+                    r["ids"] = sorted(delivered)
+                    r["spec_strict"] = rec["spec_strict"] & stored
+                    r["spec_incl"] = rec["spec_incl"] & stored
+                    if not (r["limit"] is not None and len(r["spec_incl"]) > r["limit"]):
+                        owed += len(r["spec_strict"])
+                    oracle(report, scen, r, payload=payload,
+                           context=" — as one of the %d filters of the REQ %r sent through storage.%s of %s" % (len(fs), fs, entry, what))
+                # at most once per matching filter
+                for i in sorted(delivered):
+                    k = sum(1 for rec in judged if i in rec["spec_incl"])
+                    c = got.count(i)
+                    if k >= 1 and c > k:
+                        report.property_failure("%s: storage.%s delivers the event %s %d times for the REQ %r in which %d filter(s) match it"
+                                                % (what, entry, i, c, fs, k), payload, None)
+                        break
+                report.case(("kv-storage-req", describe_options(options), entry, repr(fs), len(scen.events)), nontrivial=owed > 0,
+                            sample={"backend": "kv", "storage_options": describe_options(options), "entry": entry, "filters_in_req": len(fs),
+                                    "planned": len(judged), "owed_events": owed, "delivered": len(got)})
+                report.count("storage_reqs_" + entry)
+                report.count("storage_reqs_pool_size_%s" % width)
+                report.count("storage_reqs_with_%d_filters" % len(fs))
+                if isinstance(width, int) and len(judged) > width:
+                    report.count("storage_reqs_with_more_plans_than_pool_threads")
+    finally:
+        st.close()
+
+
+def storage_configurations(report, scen, rng, n_reqs, adversarial=False):
+    """one store, every pool width (with a further documented environment option now and then), the same REQs under each"""
+    evs = qscen.gen_store(rng, adversarial=adversarial)
+    scen.load(evs)
+    reqs = [fs for fs in (gen_storage_req(rng, scen, evs, rng.choice(REQ_SIZES)) for _ in range(n_reqs)) if fs]
+    for width in POOL_WIDTHS:
+        options = dict(rng.choice(ENV_OPTIONS))
+        if width is not None:
+            options["pool_size"] = width
+        storage_reqs(report, scen, options, reqs)
+    report.count("storage_configuration_stores")
+
+
 def validation_cases(report, drv, rng, n):
     """the front end: what NostrQuery validation makes of the ids / authors / kinds a client sends (any spelling, duplicates,
     over-long, too short, not hex, non-ASCII) vs Model/Validate.lean — the theorems of Props/C02Validate.lean (validated strings
@@ -574,11 +845,19 @@ def run(report, tier, seed):
         "reading bounds the count); non-trivial = at least one stored event strictly matches; chained plans in both "
         "orders: tag conditions (2-4 values, prefix-related, one or two names) next to 1-12 authors x 1-12 kinds and next "
         "to single lists of 40-700 authors / kinds, over stores whose events carry 0-3 of the requested values under few "
-        "timestamps (directed) and over the random stores (wide sibling of the filter generator)")
+        "timestamps (directed) and over the random stores (wide sibling of the filter generator); storage configurations: "
+        "the real LMDBStorage built from option sets (pool_size 1/2/3/4/5/absent/16, now and then metasync / sync / map_size / "
+        "max_spare_txns), the random stores loaded through its writer, REQs of 1-7 valid filters (selectors that partition "
+        "the store by kind / author / id / tag value / timestamp, and random conjunctions) through storage.subscribe -> "
+        "Subscription.run_query and through storage.run_single_query; every planned filter judged against the stream "
+        "delivered before EOSE, and no event more often than there are filters matching it")
     report.assumptions += [
         "empty filters ({} or only a limit) are refused by policy on both backends and are outside the property's "
         "'well-formed conjunction' domain, as are ids/authors that are not 64 hex digits and `search`",
         "the LMDB planner serves at most 5 filters per REQ (maximum_plans); the bench asks one filter per plan",
+        "REQs through the storage object (storage configurations): of a REQ with more than five valid filters only the first five "
+        "are judged; only the union of the plans' answers is observable there, so a filter's event that a neighbouring filter "
+        "delivers counts as delivered",
     ]
     try:
         for e in report.known:
@@ -598,6 +877,8 @@ def run(report, tier, seed):
             wide_chained(report, scen, rng)
         for i in range(16 if tier == "quick" else 300):
             wide_random(report, scen, rng, adversarial=i % 4 == 3)
+        for i in range(12 if tier == "quick" else 150):
+            storage_configurations(report, scen, rng, 6 if tier == "quick" else 10, adversarial=i % 4 == 3)
         if tier == "thorough":
             exhaustive(report, scen)
     finally:
